@@ -88,6 +88,35 @@ def main():
                              f"runs with logL and logL{c:+g} diverge for three different seeds (first: iteration {ff['i']}, clauses {ff['clauses']}) in {conf}",
                              {"conf": conf, "c": c, "clauses": ff["clauses"], "iteration": ff["i"]})
         pending = nxt
+    # the two runs of a pair made in ONE process by two samplers that share one likelihood function object; the constant travels
+    # through log_likelihood_kwargs (values remembered per function object would leak from the first run into the second)
+    sp_jobs = []
+    for i, (kern, c) in enumerate([("tpcn", 1.0), ("rwm", -37.5)] + ([] if ck.tier == "quick" else [("tpcn", 1000.0), ("rwm", 0.5)])):
+        base = dict(sample=kern, clustering=False, quant=20, n_particles=8, via="shared")
+        sd = 20000 + i + 31 * ck.seed
+        sp_jobs.append({"a": dict(conf=dict(base, shift=0.0), seed=sd, n_total=32), "b": dict(conf=dict(base, shift=c), seed=sd, n_total=32), "c": c})
+    SP = pairs.run_many(sp_jobs, func=pairs.run_pair_in_process)
+    spP = []
+    for j, r in zip(sp_jobs, SP):
+        if "a" not in r:
+            raise RuntimeError("same-process pair worker failed: " + str(r.get("raised"))[:300])
+        if r["a"]["raised"] or r["b"]["raised"]:
+            ck.violation("pair:raised", f"run raised {r['a']['raised'] or r['b']['raised']} (two samplers in one process, shift through log_likelihood_kwargs)", {"job": j["a"], "c": j["c"]})
+            continue
+        spP.append((j, pairs.project_pair(r["a"], r["b"], kind="same", c=j["c"], exact=False)))
+    if spP:
+        sfails, sst = pairs.validate_pairs([p_ for _, p_ in spP])
+        states += sst["states"]
+        total_pairs += len(spP)
+        seen_sp = set()
+        for f in sfails:
+            if f["pid"] in seen_sp:
+                continue
+            seen_sp.add(f["pid"])
+            j = spP[f["pid"] - 1][0]
+            ck.violation("shift-same-process:" + f["clauses"][0],
+                         f"two samplers in one process sharing one likelihood function (constant {j['c']:+g} through log_likelihood_kwargs) diverge at iteration {f['i']} ({f['clauses']})",
+                         {"job": j["a"], "c": j["c"], "clauses": f["clauses"]})
     if cases:
         ck.sample({"conf": cases[0][0], "c": cases[0][1]})
     ck.finish({
